@@ -46,7 +46,7 @@ func judge(c *Case) (sig, msg string, h *sim.History) {
 	h = sim.Run(c.World, &sim.Options{CycleTimeout: 20 * time.Second})
 	for _, rec := range h.Cycles {
 		if rec.Hung {
-			return "hang", fmt.Sprintf("cycle %d did not terminate within 20s (typical cycle: 15 ms); hostile objects: %v", rec.Index, c.Hostile), h
+			return "hang", fmt.Sprintf("cycle %d did not terminate (%s); hostile objects: %v", rec.Index, rec.HangKind, c.Hostile), h
 		}
 		if rec.Panic != "" {
 			first := rec.Panic
